@@ -1,9 +1,17 @@
 package mast
 
-// applyOps runs up to K symbolic operations (insert / delete / persist / persist+reload / clone)
+// applyOps runs up to K symbolic operations (0 insert / 1 delete / 2 persist+reload / 3 clone / 4 persist /
+// 5 persist and go back to the first persisted version / 6 persist and restart with an empty cache)
 // on a tree and its model. It returns whether any delete succeeded.
 func applyOps(tag string, cur *Mast, md *symModel, cfg *RemoteConfig, K int, nops int) (*Mast, *symModel, bool) {
 	deleted := false
+	var firstRoot *Root // the first version persisted during this history (ops 5 and 6 go back to it)
+	var firstMd *symModel
+	remember := func(r *Root, md *symModel) {
+		if firstRoot == nil {
+			firstRoot, firstMd = r, md.clone()
+		}
+	}
 	seq := verifBoundOr("SEQ."+tag, -1)
 	for i := 0; i < K; i++ {
 		op := 0
@@ -38,6 +46,30 @@ func applyOps(tag string, cur *Mast, md *symModel, cfg *RemoteConfig, K int, nop
 			r, err := cur.MakeRoot(vctx)
 			verifAssert("C01."+tag+".makeroot.err", err == nil)
 			if err == nil {
+				remember(r, md)
+				cur, err = r.LoadMast(vctx, cfg)
+				verifAssert("C01."+tag+".load.err", err == nil)
+			}
+		case 5:
+			// branch: persist this version, then continue on the *first* version persisted in this
+			// history, opened again through the same store and cache
+			r, err := cur.MakeRoot(vctx)
+			verifAssert("C01."+tag+".makeroot.err", err == nil)
+			if err == nil {
+				remember(r, md)
+				cur, err = firstRoot.LoadMast(vctx, cfg)
+				verifAssert("C01."+tag+".load.err", err == nil)
+				md = firstMd.clone()
+			}
+		case 6:
+			// restart: persist, then open the version through a new, empty cache (which fills by decoding)
+			r, err := cur.MakeRoot(vctx)
+			verifAssert("C01."+tag+".makeroot.err", err == nil)
+			if err == nil {
+				remember(r, md)
+				if cfg.NodeCache != nil {
+					cfg.NodeCache = &vCache{}
+				}
 				cur, err = r.LoadMast(vctx, cfg)
 				verifAssert("C01."+tag+".load.err", err == nil)
 			}
@@ -46,8 +78,11 @@ func applyOps(tag string, cur *Mast, md *symModel, cfg *RemoteConfig, K int, nop
 			verifAssert("C01."+tag+".clone.err", err == nil)
 			cur = &c
 		case 4:
-			_, err := cur.MakeRoot(vctx)
+			r, err := cur.MakeRoot(vctx)
 			verifAssert("C01."+tag+".makeroot.err", err == nil)
+			if err == nil {
+				remember(r, md)
+			}
 		}
 	}
 	return cur, md, deleted
